@@ -86,12 +86,12 @@ def r3_matching(ctx, prog):
             re.compile(r'getBooleanValue\(operator\*\(\w+\),CKA_PRIVATE,\w+\)'): 0}
     T = r'%s\[\w+\]' % pt
 
-    def run(cenv, site, want):
+    def run(cenv, site, want, rounds=2):
         env = dict(base)
         env.update(cenv)
         o = Outcomes(f, prog, cenv=env, record_calls=REG)
         o.CAP = 48
-        o.LOOP_ROUNDS = 2
+        o.LOOP_ROUNDS = rounds
         o.go()
         r.paths += len(o.outcomes)
         looped = [oc for oc in o.outcomes if oc['path'].count(':L') >= 1 and may_succeed(oc)]
@@ -151,6 +151,26 @@ def r3_matching(ctx, prog):
                 if size == tlen == 0 and not eq:
                     want = True
                 run(e, 'bytes stored-size=%d template-len=%d equal=%d' % (size, tlen, eq), want)
+    # two-entry templates on a concrete index: the object is a result iff *both* entries match, whatever their order (a mismatch must not be forgotten by a later entry)
+    def entry_env(j, kind, match):
+        J = r'%s\[%d\]' % (pt, j)
+        A = r'.*%s\.type.*' % J
+        env = {re.compile(r'attributeExists\(operator\*\(\w+\),%s\.type\)' % J): 1,
+               re.compile(r'isBooleanAttribute\(%s\)' % A): int(kind == 'boolean'), re.compile(r'isUnsignedLongAttribute\(%s\)' % A): int(kind == 'ulong'), re.compile(r'isByteStringAttribute\(%s\)' % A): 0,
+               re.compile(J + r'\.ulValueLen'): 1 if kind == 'boolean' else 8}
+        if kind == 'boolean':
+            env.update({re.compile(r'\*' + J + r'\.pValue'): 1, re.compile(r'getBooleanValue\(getAttribute\(%s\)\)' % A): 1 if match else 0})
+        else:
+            env.update({re.compile(r'\*' + J + r'\.pValue'): 77, re.compile(r'getUnsignedLongValue\(getAttribute\(%s\)\)' % A): 77 if match else 78})
+        return env
+    for k0 in ('boolean', 'ulong'):
+        for k1 in ('boolean', 'ulong'):
+            for m0 in (0, 1):
+                for m1 in (0, 1):
+                    e = {pc_: 2, '#concrete-loops': 1}
+                    e.update(entry_env(0, k0, m0))
+                    e.update(entry_env(1, k1, m1))
+                    run(e, 'two entries: %s %s, %s %s' % (k0, 'matches' if m0 else 'differs', k1, 'matches' if m1 else 'differs'), bool(m0 and m1), rounds=3)
     r.exhaustive = True
 
 
